@@ -1,7 +1,7 @@
 import re
 import string
 import functools
-from typing import Union
+from typing import Any, Union
 
 from flamapy.core.models.ast import ASTOperation
 from flamapy.core.transformations import ModelToText
@@ -101,14 +101,25 @@ class UVLWriter(ModelToText):
         for attribute in feature.get_attributes():
             attribute_str = safename(attribute.name)
             if attribute.default_value is not None:
-                if isinstance(attribute.default_value, str):
-                    attribute_str += f" '{attribute.default_value}'"
-                elif isinstance(attribute.default_value, bool):
-                    attribute_str += f" {str(attribute.default_value).lower()}"
-                else:
-                    attribute_str += f" {attribute.default_value}"
+                attribute_str += f" {cls.serialize_value(attribute.default_value)}"
             attributes.append(attribute_str)
         return f'{{{", ".join(attributes)}}}' if attributes else ""
+
+    @classmethod
+    def serialize_value(cls, value: Any) -> str:
+        if isinstance(value, str):
+            result = f"'{value}'"
+        elif isinstance(value, bool):
+            result = str(value).lower()
+        elif isinstance(value, list):
+            result = f'[{", ".join(cls.serialize_value(val) for val in value)}]'
+        elif isinstance(value, dict):
+            items = [safename(key) if val is None else f'{safename(key)} {cls.serialize_value(val)}'
+                     for key, val in value.items()]
+            result = f'{{{", ".join(items)}}}'
+        else:
+            result = str(value)
+        return result
 
     @staticmethod
     def serialize_relation(rel: Relation) -> str:
